@@ -273,8 +273,8 @@ Definition frag_to_result (f : frag) : res sentence :=
 (* BufRead::split(b'\n'): segments between newlines; a final empty segment is not produced *)
 Fixpoint split_lines_aux (cur : list N) (l : list N) : list (list N) :=
   match l with
-  | [] => match cur with [] => [] | _ => [rev cur] end
-  | x :: r => if x =? 10 then rev cur :: split_lines_aux [] r else split_lines_aux (x :: cur) r
+  | [] => match cur with [] => [] | _ => [rev_append cur []] end
+  | x :: r => if x =? 10 then rev_append cur [] :: split_lines_aux [] r else split_lines_aux (x :: cur) r
   end.
 Definition split_lines (input : list N) : list (list N) := split_lines_aux [] input.
 
